@@ -734,8 +734,8 @@ hwloc__xml_import_object(hwloc_topology_t topology,
 	}
       }
     } else {
-      /* type needed first */
-      if (obj->type == HWLOC_OBJ_TYPE_NONE) {
+      /* type needed first (children are allocated with HWLOC_OBJ_TYPE_MAX) */
+      if (obj->type == HWLOC_OBJ_TYPE_NONE || obj->type == HWLOC_OBJ_TYPE_MAX) {
 	if (hwloc__xml_verbose())
 	  fprintf(stderr, "%s: object attribute %s found before type\n",
 		  state->global->msgprefix,  attrname);
@@ -743,6 +743,13 @@ hwloc__xml_import_object(hwloc_topology_t topology,
       }
       hwloc__xml_import_object_attr(topology, obj, attrname, attrvalue, state, &ignored);
     }
+  }
+
+  if (obj->type == HWLOC_OBJ_TYPE_MAX) {
+    if (hwloc__xml_verbose())
+      fprintf(stderr, "%s: object without type\n",
+	      state->global->msgprefix);
+    goto error_with_object;
   }
 
   /* process non-object subnodes to get info attrs (as well as page_types, etc) */
